@@ -1853,6 +1853,9 @@ class Comparator:
     def compare_iterator(cls, obj1, obj2):
         if type(obj1) is not type(obj2) or len(obj1) != len(obj2):
             return False
+        if isinstance(obj1, set):
+            # sets have no defined iteration order, compare by membership
+            return obj1 == obj2
         for o1, o2 in zip(obj1, obj2):
             if not cls.is_equal(o1, o2):
                 return False
